@@ -90,13 +90,14 @@ class Liveness:
 
 class Run:
     def __init__(self, prog, entry, K=60, overrides=None, map_perm=False, max_instr=400000, name=None,
-                 reduce=True, verbose=False, inits=(), spawn_limits=None, time_budget_s=None, sequential=False):
+                 reduce=True, verbose=False, inits=(), spawn_limits=None, time_budget_s=None, sequential=False, spawn_yield=False):
         self.prog = prog
         self.entry = entry
         self.K = K
         self.m = Machine(prog, max_instr=max_instr)
         self.m.map_perm = map_perm
         self.m.sequential = sequential
+        self.spawn_yield = spawn_yield
         self.time_budget_s = time_budget_s
         if spawn_limits:
             self.m.spawn_limits.update(spawn_limits)
@@ -192,6 +193,8 @@ class Run:
         if alt.info is not None:
             name, args = alt.info
             base = name.rsplit(".", 1)[-1] if type(name) is str else ""
+            if name == "$goStart":
+                return [(True, None, set())]
             if base == "verifQuiesce":
                 return "quiesce"
             en = m.enabled.get(name)
@@ -408,6 +411,9 @@ class Run:
                     g = bname
                 child.guard = g
                 child.resume = True
+                if a.info is not None and a.info[0] == "$goStart":
+                    child.resume = False
+                    child.info = None
                 child.opt = opt
                 child.ninstr = 0
                 child.ov = {}
@@ -555,7 +561,13 @@ class Run:
                 spawned_map.setdefault(parent_alt.thread.tid, set()).add(th.tid)
                 alt = Alt(th, parent_alt.guard)
                 self.start_thread(alt, name, args, fv)
-                res = m.run_alt(alt)
+                if self.spawn_yield:
+                    # the start of a goroutine is a scheduling point of its own (it may be delayed arbitrarily)
+                    alt.status = "parked"
+                    alt.info = ("$goStart", [])
+                    res = [alt]
+                else:
+                    res = m.run_alt(alt)
                 newres += res
                 # sequential composition of the first (local) segments of goroutines started in one step
                 rds = [set(r.rd) for r in res]
